@@ -74,6 +74,8 @@ pub fn check_position(b: &Board, r: &RefPos, stats: &mut Stats) -> CheckResult {
     }
     let only_ep_illegal = !r.has_legal() && r.pseudo_legal().iter().any(|m| m.kind == Kind::Ep);
     stats.label_if(only_ep_illegal, "no_legal_but_illegal_ep");
+    let l = r.legal();
+    stats.label_if(!l.is_empty() && l.iter().all(|m| m.kind == Kind::Ep), "only_legal_moves_are_ep");
     stats.label_if(near_material && !r.insufficient_material(), "material_near_miss");
     if want != RefOutcome::None || matches!(r.half, 99 | 149) || near_material {
         stats.nontrivial(&(r.rep_key(), r.half));
@@ -192,7 +194,7 @@ pub fn property() -> Property {
                 driver: Driver::Generated { gen: gen_pos_case, genome_len: 192, quick: 600_000, thorough: 12_000_000 },
                 check: check_case,
                 configs: Configs::ReleaseOnly,
-                required: &["checkmate", "stalemate", "insufficient_material", "moves75", "moves50", "no_outcome", "material_near_miss", "no_legal_but_illegal_ep"],
+                required: &["checkmate", "stalemate", "insufficient_material", "moves75", "moves50", "no_outcome", "material_near_miss", "no_legal_but_illegal_ep", "only_legal_moves_are_ep"],
                 regressions: &[
                     r#"{"fen":"8/8/8/8/k2pP2R/8/8/7K b - e3 0 1","src":"regression_D1"}"#,
                     r#"{"fen":"7k/8/8/K2Pp2r/8/8/8/8 w - e6 0 1","src":"regression_D1"}"#,
